@@ -1066,6 +1066,13 @@ class KmipEngine(object):
 
         if session_groups is None:
             session_groups = [None]
+        else:
+            # If group information is provided but the policy only defines
+            # preset controls, the preset controls are enforced.
+            policies = self._operation_policies or {}
+            policy_bundle = policies.get(policy_name)
+            if policy_bundle and not policy_bundle.get('groups'):
+                session_groups = [None]
 
         for session_group in session_groups:
             allowed = self.is_allowed(
